@@ -169,7 +169,7 @@ func checkC05(r *Run) {
 			r.Check(a.Block() == s.Block() || (Precedes(a, s) && sameGuards(P, a, s)), "C05-R2", "UTV/update⇔memory", P.InstrPos(a), "the update and the memory write happen under the same condition", "the power update and SetPrevStateValPower are not executed under the same condition (an update could be sent without being remembered, or vice versa)")
 			// condition: !found || power changed
 			r.requireCut("C05-R2", "UTV/update-only-if-new-or-changed", nil, a, "new-or-changed",
-				`^!`+q(prevMap)+`\[.*\]#1$`, `^!bytes\.Equal\(`+q(prevMap)+`\[.*\]#0, .*MustMarshalBinaryLengthPrefixed\(param:k\.cdc, `+q(curPower)+`\)\)$`)
+				`^!`+q(prevMap)+`\[.*\]#1$`, `^!bytes\.Equal\(`+q(prevMap)+`\[.*\]#0, .*MarshalBinaryLengthPrefixed\(param:k\.cdc, `+q(curPower)+`\)#0\)$`)
 			// and conversely: if new or changed the update is always appended before Next
 			for _, re := range []string{`^!` + q(prevMap) + `\[.*\]#1$`, `^!bytes\.Equal\(` + q(prevMap) + `\[`} {
 				r.mustFollowEdge("C05-R2", "UTV/new-or-changed-always-updated:"+re[:12], f, re, func(in ssa.Instruction) bool { return in == ssa.Instruction(a) }, CallTo("github.com/tendermint/tm-db.Iterator.Next"), "the power update")
